@@ -91,6 +91,34 @@ func checkTopDirScan(p *Prog, r *Report) {
 		})
 	}
 	if n == 0 {
+		// handed to a search helper that visits every element (slices.ContainsFunc / IndexFunc)?
+		for _, fn := range g.unitFuncs(del) {
+			allCalls(fn, func(c ssa.CallInstruction) {
+				nm := calleeName(c)
+				if sc := c.Common().StaticCallee(); sc != nil && sc.Origin() != nil {
+					nm = sc.Origin().String()
+				}
+				if nm != "slices.ContainsFunc" && nm != "slices.IndexFunc" {
+					return
+				}
+				for _, a := range c.Common().Args {
+					switch x := stripConv(a).(type) {
+					case *ssa.Function:
+						if x == itd {
+							n++
+						}
+					case *ssa.MakeClosure:
+						if x.Fn == ssa.Value(itd) {
+							n++
+						}
+					}
+				}
+			})
+		}
+		if n > 0 {
+			r.OK(rule, "isTopDir applied by a whole-slice search helper", p.Pos(del.Pos()), "")
+			return
+		}
 		r.Unk(rule, "isTopDir call", p.Pos(del.Pos()), "deleteFiles does not call isTopDir: re-read how the top directory is found")
 	}
 }
